@@ -177,3 +177,11 @@ impl<Q: BrokerQuote, O: BrokerOrder, B: StaticWeightBroker<Q, O>> StaticWeightSt
         self.history.clone()
     }
 }
+
+#[cfg(feature = "verif")]
+impl<Q: BrokerQuote, O: BrokerOrder, B: StaticWeightBroker<Q, O>> StaticWeightStrategy<Q, O, B> {
+    /// Read-only access to the broker owned by the strategy.
+    pub fn verif_brkr(&self) -> &B {
+        &self.brkr
+    }
+}
